@@ -109,13 +109,12 @@ func (path *Path) Len() (len int) {
 }
 
 func (a *Path) equalSegment(b *Path, compareKey bool) bool {
-	if a.Meta == nil {
-		if b.Meta != nil {
+	if a.Meta == nil || b.Meta == nil {
+		if a.Meta != b.Meta {
 			return false
 		}
-		if a.Meta.Ident() != b.Meta.Ident() {
-			return false
-		}
+	} else if a.Meta.Ident() != b.Meta.Ident() {
+		return false
 	}
 	if compareKey {
 		if len(a.Key) != len(b.Key) {
